@@ -304,6 +304,148 @@ def cli_inputs(ctx: Ctx, scratch: pathlib.Path) -> Iterator[Tuple[str, pathlib.P
             yield "understood-method", p, t_, s_, scratch / f"o8{t_}"
 
 
+
+# --------------------------------------------------------------------------- independent errors in one model
+
+PAIR_OK = """class {N}:
+    x: int
+
+    def __init__(self, x: int) -> None:
+        self.x = x
+"""
+
+PAIR_DEFECTS = {
+    "nested_optional": """class {N}:
+    x: Optional[Optional[int]]
+
+    def __init__(self, x: Optional[Optional[int]] = None) -> None:
+        self.x = x
+""",
+    "list_of_optional": """class {N}:
+    x: List[Optional[int]]
+
+    def __init__(self, x: List[Optional[int]]) -> None:
+        self.x = x
+""",
+    "ctor_order": """class {N}:
+    x: int
+    y: int
+
+    def __init__(self, y: int, x: int) -> None:
+        self.x = x
+        self.y = y
+""",
+    "ctor_type": """class {N}:
+    x: int
+
+    def __init__(self, x: str) -> None:
+        self.x = x
+""",
+    "optional_no_default": """class {N}:
+    x: Optional[int]
+
+    def __init__(self, x: Optional[int]) -> None:
+        self.x = x
+""",
+    "unknown_type": """class {N}:
+    x: Unknown_type_{N}
+
+    def __init__(self, x: Unknown_type_{N}) -> None:
+        self.x = x
+""",
+    "dup_invariant_desc": """@invariant(lambda self: self.x > 0, "Same description.")
+@invariant(lambda self: self.x > 1, "Same description.")
+class {N}:
+    x: int
+
+    def __init__(self, x: int) -> None:
+        self.x = x
+""",
+    "unassigned_property": """class {N}:
+    x: int
+    y: int
+
+    def __init__(self, x: int, y: int) -> None:
+        self.x = x
+""",
+    "reserved_property": """class {N}:
+    model_type: int
+
+    def __init__(self, model_type: int) -> None:
+        self.model_type = model_type
+""",
+    "dangling_doc_ref": """class {N}:
+    \"\"\"Represent {N}, see :class:`Nonexisting_{N}`.\"\"\"
+
+    x: int
+
+    def __init__(self, x: int) -> None:
+        self.x = x
+""",
+    "unknown_base": """class {N}(Unknown_base_{N}):
+    x: int
+
+    def __init__(self, x: int) -> None:
+        self.x = x
+""",
+}
+
+PAIR_TAIL = '\n\n__version__ = "dummy"\n__xml_namespace__ = "https://dummy.com"\n'
+
+
+def _class_mentioned(err: str, text: str, name: str) -> bool:
+    import re as _re
+
+    lines = text.split("\n")
+    start = next(i for i, ln in enumerate(lines, 1) if _re.match(r"class " + name + r"\b", ln))
+    s = start
+    while s > 1 and lines[s - 2].startswith("@"):
+        s -= 1
+    e = start
+    while e < len(lines) and (lines[e].startswith(" ") or lines[e] == ""):
+        e += 1
+    return any(s <= int(m) <= e for m in _re.findall(r"At line (\d+) and column", err)) or name in err
+
+
+def pair_stream(ctx: Ctx, scratch: pathlib.Path) -> None:
+    """Two independent defects in two unrelated classes of one model: when each alone is reported under the same
+    headline (same stage), the report of the model holding both must locate both."""
+    import itertools
+
+    sn = REPO / "dev/test_data/main/jsonschema/expected/primitive_types/input/snippets"
+    p = scratch / "pair_model.py"
+
+    def run(parts: List[str]) -> Tuple[str, str]:
+        text = "\n\n".join(parts) + PAIR_TAIL
+        p.write_text(text)
+        res = run_cli(p, "jsonschema", sn, scratch / "pair_out", scratch)
+        return (res["stderr"] if res["exc"] is None else "crash"), text
+
+    single = {}
+    for k, v in PAIR_DEFECTS.items():
+        err, text = run([PAIR_OK.format(N="First"), v.format(N="Second")])
+        single[k] = (err.split("\n")[0], err != "crash" and err != "" and _class_mentioned(err, text, "Second"))
+    n = 0
+    for a, b in itertools.permutations(PAIR_DEFECTS, 2):
+        if single[a][0] != single[b][0] or not single[a][1] or not single[b][1]:
+            continue
+        err, text = run([PAIR_DEFECTS[a].format(N="First"), PAIR_DEFECTS[b].format(N="Second")])
+        n += 1
+        ctx.count(("pair", a, b), nontrivial=True, stream="cli-error-pairs")
+        if err == "crash":
+            continue
+        for which, name in ((a, "First"), (b, "Second")):
+            if not _class_mentioned(err, text, name):
+                first = a if which == b else b
+                ctx.fail(
+                    {"kind": "error-pair", "first": a, "second": b, "model": text},
+                    f"the independent error '{which}' in class {name} is missing from the report although it is reported "
+                    f"under the same headline when it is alone (other defect: '{first}'): {err[:300]!r}",
+                    f"C03:error-dropped:{which}:when-with:{first}" if which == a else f"C03:error-dropped:after:{a}",
+                )
+    ctx.extra_cov["error_pairs"] = n
+
+
 def oracle(ctx: Ctx) -> None:
     scratch = ctx.scratch()
     kinds: Dict[str, int] = {}
@@ -327,6 +469,7 @@ def oracle(ctx: Ctx) -> None:
         if isinstance(out, pathlib.Path) and out.is_dir():
             shutil.rmtree(out, ignore_errors=True)
     ctx.extra_cov["cli_runs"] = kinds
+    pair_stream(ctx, scratch)
 
 
 def replay(ctx: Ctx, data: Dict[str, Any]) -> Any:
